@@ -6,13 +6,10 @@ Import ListNotations.
 Open Scope list_scope.
 Open Scope Z_scope.
 
-Lemma src_vi_to_int_eq : forall d, src_vi_to_int d = of_option (pairZ (vi_to_int d)).
+Lemma src_vi_to_int_eq : forall d, wf_bytes d -> src_vi_to_int d = of_option (pairZ (vi_to_int d)).
 Proof.
-  intros d. unfold src_vi_to_int. rewrite py_index_0.
+  intros d Hd. unfold src_vi_to_int. cbv beta iota zeta. eval_closed. rewrite !py_index_0.
   destruct d as [|b t]; [reflexivity|].
-  unfold vi_to_int, py_from_bytes_be, be_val.
-  cbn [negb].
-  rewrite !rev_involutive.
-  rewrite !py_slice_tail' by lia. eval_to_nat.
-  split_ifs; try lia; reflexivity.
+  assert (Hb : 0 <= b < 256) by (inversion Hd; assumption).
+  unfold vi_to_int. decode_first_byte b Hb.
 Qed.
